@@ -20,6 +20,7 @@
 #include "jls/writer.h"
 #include "jls/buffer.h"
 #include "jls/cdef.h"
+#include "jls/datatype.h"
 #include <inttypes.h>
 #include <stdio.h>
 
@@ -53,6 +54,7 @@ int32_t jls_copy(const char * src, const char * dst,
     int32_t rc = 0;
     int64_t offset = 0;
     int64_t offset_progress = 0;
+    uint8_t fsr_sample_bits[JLS_SIGNAL_COUNT] = {0};  // sample width of each FSR signal defined in the copy
     struct jls_raw_s * rd = NULL;
     struct jls_wr_s * wr = NULL;
     struct jls_buf_s * buf = jls_buf_alloc();
@@ -150,6 +152,9 @@ int32_t jls_copy(const char * src, const char * dst,
                 COE(jls_buf_rd_str(buf, (const char **) &signal.units));
                 if (signal.signal_id != 0) {
                     COE(jls_wr_signal_def(wr, &signal));
+                    if ((signal.signal_id < JLS_SIGNAL_COUNT) && (signal.signal_type == JLS_SIGNAL_TYPE_FSR)) {
+                        fsr_sample_bits[signal.signal_id] = jls_datatype_parse_size(signal.data_type);
+                    }
                 }
                 break;
             }
@@ -161,6 +166,16 @@ int32_t jls_copy(const char * src, const char * dst,
                 struct jls_fsr_data_s * data = (struct jls_fsr_data_s *) buf->start;
                 // future: handle omitted data by looking at level 1 index & summary
                 // future: decompress if needed
+                // the chunk holds the samples it announces, in the width of the signal they go to
+                uint64_t data_bits = ((uint64_t) data->header.entry_count) * data->header.entry_size_bits;
+                if ((hdr.payload_length < sizeof(data->header))
+                        || (signal_id >= JLS_SIGNAL_COUNT)
+                        || (0 == fsr_sample_bits[signal_id])
+                        || (data->header.entry_size_bits != fsr_sample_bits[signal_id])
+                        || (((data_bits + 7) / 8) > (hdr.payload_length - sizeof(data->header)))) {
+                    MSG_ERROR("inconsistent FSR data chunk", JLS_ERROR_MESSAGE_INTEGRITY);
+                    break;
+                }
                 COE(jls_wr_fsr(wr, signal_id, data->header.timestamp,
                                data->data, data->header.entry_count));
                 break;
